@@ -108,6 +108,8 @@ func (c13Prop) Gen(t *Tape, ph *PhaseCfg) Case {
 		}
 	}
 	c.Decl = d
+	d.PtrForm = t.Draw(2) == 1
+	shortForm := t.Draw(3) == 0
 	// delivery route, then fall back to the next legal one
 	legal := func(r int) bool {
 		switch r {
@@ -133,6 +135,9 @@ func (c13Prop) Gen(t *Tape, ph *PhaseCfg) Case {
 		r = (r + 1) % 8
 	}
 	c.Delivery = r
+	if r < 6 && shortForm {
+		d.Short, d.NoSBU = true, true
+	}
 	spec := ""
 	argv := []string{"app"}
 	if kind.IsList() && r < 6 && t.Draw(2) == 1 {
